@@ -35,6 +35,7 @@ def run(ctx):
     K.check_revocation_lookup(ctx, f, "ca::sigmsg")
     ctx.rule("R-CHK", "every success path passes a checked call to the sink (interprocedural)")
     ctx.rule("R-GRD", "success requires the guard literal (graph cut on its true edges)")
+    ctx.rule("R-WHO", "call sites are exactly the confirmed ones")
     ctx.rule("R-FLOW", "operand provenance (backward slice, composed along call chains) is the required source")
     ctx.rule("R-REG", "outcome regions by interval abstract interpretation equal the spec table")
     ctx.rule("R-SIB", "sibling agreement: re-decode mode vs capture mode")
